@@ -253,11 +253,19 @@ class World:
             if fn is None:
                 raise HarnessError(f"no resolver {step['args']['derive']}")
             spec = fn(self, step)
+            if spec is None:
+                self.events.append({"seq": i, "client": step["client"], "op": step["op"], "outcome": "skipped"})
+                self.concrete_script.append(copy.deepcopy(step))
+                return
             cid = step["client"]
             self.clients[cid] = Client(cid, spec, step["args"].get("config"))
             step = dict(step)
             step["op"] = "solve"
             step["_examine"] = True
+        if step["client"] not in self.clients:
+            self.events.append({"seq": i, "client": step["client"], "op": step["op"], "outcome": "skipped"})
+            self.concrete_script.append(copy.deepcopy(step))
+            return
         cl = self.clients[step["client"]]
         op = step["op"]
         ev = {"seq": i, "client": cl.id, "op": op}
